@@ -218,15 +218,27 @@ Proof.
   rewrite (write_axis_options fx o o' f w a H). apply IH; exact H.
 Qed.
 
-Lemma options_irrelevant : forall o o' f, o_coordinates o = o_coordinates o' -> write_skel o f = write_skel o' f.
+Lemma write_aux_options : forall o o' f w c, vlen o = vlen o' -> write_aux o f w c = write_aux o' f w c.
+Proof. intros o o' f w c H. unfold write_aux, skind, eff_strlen. rewrite H. reflexivity. Qed.
+
+Lemma fold_write_aux_options : forall o o' f l w, vlen o = vlen o' ->
+  fold_left (write_aux o f) l w = fold_left (write_aux o' f) l w.
 Proof.
-  intros o o' f H. unfold write_skel, write_skel_gen. rewrite (fold_write_axis_options true o o' f _ _ H). reflexivity.
+  intros o o' f l; induction l as [|a l IH]; intros w H; simpl; [reflexivity|].
+  rewrite (write_aux_options o o' f w a H). apply IH; exact H.
+Qed.
+
+Lemma options_irrelevant : forall o o' f, o_coordinates o = o_coordinates o' -> vlen o = vlen o' ->
+  write_skel o f = write_skel o' f.
+Proof.
+  intros o o' f H Hv. unfold write_skel, write_skel_gen. rewrite (fold_write_axis_options true o o' f _ _ H).
+  rewrite (fold_write_aux_options o o' f _ _ Hv). reflexivity.
 Qed.
 
 (* ------------------------------------------------------------------ superseded code *)
 Definition ax (n : Z) (d : option string) := {| a_size := n; a_ncdim := d; a_unlim := false |}.
 Definition o0 := {| o_fmt := 0; o_compress := 0; o_shuffle := true; o_fletcher32 := false; o_endian := 0;
-                    o_chunks := 0; o_coordinates := false |}.
+                    o_chunks := 0; o_coordinates := false; o_string := true |}.
 Definition f_witness : skel :=
   {| f_std := Some "air_temperature"; f_ncvar := Some "ta"; f_axes := [ax 3 (Some "t")]; f_data_axes := [0%nat];
      f_cons := [{| c_type := CDim; c_axes := [0%nat]; c_std := Some "time"; c_ncvar := None; c_bounds := None;
